@@ -68,7 +68,7 @@ def redeclare(spec):
     return bool(pre)
 
 
-def check_case(acc, chain_l, cur, locking, load, duty, init=None, redeclared=False, teeth_mode='rotating'):
+def check_case(acc, chain_l, cur, locking, load, duty, init=None, redeclared=False, teeth_mode='rotating', reeta=False):
     chain_l = [tuple(x) for x in chain_l]
     spec = menu.assign(chain_l, motor=menu.MOTOR_CUR if cur else menu.MOTOR_PLAIN, locking=locking,
                        init=init or {'theta': [0.2, 'rad'], 'w': [1.5, 'rad/s']}, teeth_mode=teeth_mode)
@@ -78,20 +78,29 @@ def check_case(acc, chain_l, cur, locking, load, duty, init=None, redeclared=Fal
     spec['load'] = load_spec(load, stall)
     d = len(duty)
     case = {'kind': 'case', 'chain': chain_l, 'cur': cur, 'locking': locking, 'load': list(load),
-            'duty': list(duty), 'redeclared': redeclared, 'teeth_mode': teeth_mode}
-    m, info = sim.run_schedule(spec, [('run', DT, [DT[0] * (d - 1), 'sec'], list(duty), None)])
+            'duty': list(duty), 'redeclared': redeclared, 'teeth_mode': teeth_mode, 'reeta': reeta}
+    ops = [('run', DT, [DT[0] * (d - 1), 'sec'], list(duty), None)]
+    if reeta:
+        # after the first run a gear mating is declared again with another efficiency; same Solver continues
+        gi = next((i for i, l in enumerate(spec['links']) if l['t'] == 'G'), None)
+        if gi is None:
+            return
+        ops += [('redeclare', gi, {'t': 'G', 'eta': 0.6}), ('run', DT, [DT[0] * 2, 'sec'], list(duty) + [duty[-1], duty[0]], None)]
+    m, info = sim.run_schedule(spec, ops)
     acc.executions += 1
     if info['error']:
         acc.violation(f'C02/run-error/{info["error"][0]}', 'simulation runs', case, {'error': info['error']})
         return
-    chain = sim.chain_ref(spec)
-    obs = m.observe()
+    chain0 = sim.chain_ref(spec)
+    chain = sim.chain_ref(m.spec)
+    obs_all = m.observe()
     name = menu.chain_name(chain_l)
+    k0 = info['spec_changes'][0][0] if info.get('spec_changes') else None
 
     def emit(sfx, clause, k, detail):
         dd = dict(detail)
         dd.update(instant=k, chain=name)
-        acc.violation(f'C02/{sfx}' + ('/after-redeclaration' if redeclared else '') + ('/unit-ratio-mating' if teeth_mode == 'equal' else ''), clause, case, dd)
+        acc.violation(f'C02/{sfx}' + ('/after-redeclaration' if redeclared else '') + ('/unit-ratio-mating' if teeth_mode == 'equal' else '') + ('/efficiency-redeclared-between-runs' if reeta else ''), clause, case, dd)
 
     # efficiency attributes: joints must carry 1
     for i in range(1, chain.n):
@@ -101,7 +110,14 @@ def check_case(acc, chain_l, cur, locking, load, duty, init=None, redeclared=Fal
                           'efficiency attribute = reference (1 for a joint)', case,
                           {'i': i, 'got': eta, 'ref': chain.etas[i]})
     load_fn = lambda k, t, th, w: sim.load_value(spec['load'], k, t, th, w)
-    acc.transitions += traj.torques(obs, chain, emit, load_fn=load_fn, load_calls=m.load_calls)
+    if k0 is None:
+        obs = obs_all
+        acc.transitions += traj.torques(obs, chain, emit, load_fn=load_fn, load_calls=m.load_calls)
+    else:
+        nk_all = len(obs_all['time'])
+        acc.transitions += traj.torques(sim.slice_obs(obs_all, 0, k0), chain0, emit)
+        acc.transitions += traj.torques(sim.slice_obs(obs_all, k0, nk_all), chain, emit)
+        obs = obs_all
     nk = len(obs['time'])
     for k in range(nk):
         key = (name, cur, obs['el'][0]['pwm'][k],
@@ -127,6 +143,8 @@ def run_shard(shard, tier):
                 if duty[0] == 1 and duty[-1] != duty[0]:
                     # the same chain assembled after a history of re-declared relations
                     check_case(acc, chain_l, shard['cur'], locking, load, duty, redeclared=True)
+                if has_mating and duty[0] == duty[1] == 1:
+                    check_case(acc, chain_l, shard['cur'], locking, load, duty, reeta=True)
                 if has_mating and duty[0] != duty[1]:
                     # every mating with ratio exactly 1 (equal teeth): ratio and efficiency must not be confused with a joint
                     check_case(acc, chain_l, shard['cur'], locking, load, duty, teeth_mode='equal')
@@ -140,6 +158,6 @@ def run_shard(shard, tier):
 def replay(case):
     acc = Acc()
     if case.get('kind') == 'case':
-        check_case(acc, case['chain'], case['cur'], case['locking'], tuple(case['load']), tuple(case['duty']), redeclared=case.get('redeclared', False), teeth_mode=case.get('teeth_mode', 'rotating'))
+        check_case(acc, case['chain'], case['cur'], case['locking'], tuple(case['load']), tuple(case['duty']), redeclared=case.get('redeclared', False), teeth_mode=case.get('teeth_mode', 'rotating'), reeta=case.get('reeta', False))
         return acc.violations
     return run_shard(case['shard'], 'quick').violations
